@@ -9,6 +9,7 @@ import (
 
 	"github.com/hashicorp/consul/internal/verifmc/c03"
 	"github.com/hashicorp/consul/internal/verifmc/c05"
+	"github.com/hashicorp/consul/internal/verifmc/c06"
 	"github.com/hashicorp/consul/internal/verifmc/c08"
 	"github.com/hashicorp/consul/internal/verifmc/c08r"
 	"github.com/hashicorp/consul/internal/verifmc/c09"
@@ -30,6 +31,7 @@ type checkDef struct {
 var checks = map[string]checkDef{
 	"C03": {"model_checking", c03.Run},
 	"C05": {"model_checking", c05.Run},
+	"C06": {"model_checking", c06.Run},
 	"C08": {"exploration", func(c *ev.Ctx) { c08.Run(c); c08r.Run(c) }},
 	"C09": {"exploration", c09.Run},
 	"C10": {"exploration", c10.Run},
